@@ -307,15 +307,18 @@ class ThrottleScenario(ChangeScenario):
                     tnow = paused_until
                     paused_until = None
                 want.append(tnow)
-                if fail_set and abs(fail_set[0] - tnow) < 1e-9:
-                    fail_set.pop(0)
+                slow = float(self.params.get('slow', 0.0))     # the attempt takes this long before its PATCH fails
+                if fail_set and -1e-9 <= fail_set[0] - tnow <= slow + 1e-9:
+                    tfail = fail_set.pop(0)
                     d = delays[min(idx, len(delays) - 1)]
                     idx += 1
-                    paused_until = tnow + d
+                    paused_until = tfail + d                   # the pause counts from the failure, not from the start of the attempt
+                    tnow = tfail
                 elif tnow in fails:
                     pass
                 else:
                     idx = 0
+                    tnow = tnow + slow
             if attempts != want:
                 out.append(self.viol(env, 'pause-schedule', f"object a: processed at {attempts}, with failures at {fails} and error_delays {delays} the policy says {want} "
                                                             f"(events arrived at {arrivals})", clause='error-delays'))
@@ -351,6 +354,13 @@ def throttle_scenarios(tier: str) -> list[ThrottleScenario]:
                 out.append(ThrottleScenario(handlers=handlers, user=user, horizon=70.0, error_delays=list(delays), fail_first=fail_first,
                                             settings={'queueing__error_delays': delays, 'networking__error_backoffs': (),
                                                       'persistence__consistency_timeout': 5.0}))
+                if delays and fail_first <= 2:
+                    # attempts that take a while (0.5 s in the raw-event handler) before their PATCH fails
+                    slow_handlers = [dict(h, script=['ok~0.5']) if h['id'] == 'ev' else h for h in handlers]
+                    out.append(ThrottleScenario(handlers=slow_handlers, user=[u for u in user if u[2] == 'a' or u[1] == 'create'], horizon=70.0,
+                                                error_delays=list(delays), fail_first=fail_first, slow=0.5,
+                                                settings={'queueing__error_delays': delays, 'networking__error_backoffs': (),
+                                                          'persistence__consistency_timeout': 5.0}))
     return out
 
 
